@@ -1,0 +1,37 @@
+//go:build verif
+
+package sharding
+
+// Contracts for govc (/verif). Comment-only file: no executable code, not part of the default build.
+
+/*@
+struct multiShardCoordinator
+  invariant shards: numberOfShards >= 1
+  invariant masks:  maskHigh < numberOfShards || maskLow < numberOfShards
+
+spec fn bytesNeeded(n uint32) int = n <= 256 ? 1 : (n <= 65536 ? 2 : (n <= 16777216 ? 3 : 4))
+spec fn startIdx(n uint32, l int) int = l > bytesNeeded(n) ? l - bytesNeeded(n) : 0
+
+func (msc *multiShardCoordinator) ComputeIdFromBytes(address []byte) (r uint32)
+  mode bv
+  pure
+  requires inv(msc)
+  ensures  valid-shard: r < msc.numberOfShards || (r == 4294967295 && core.IsSmartContractOnMetachain(address[startIdx(msc.numberOfShards, len(address)):], address))
+
+loop 1
+  invariant 0 <= i && i <= len(buffNeeded)
+
+func (msc *multiShardCoordinator) ComputeId(address []byte) (r uint32)
+  mode bv
+  pure
+  requires inv(msc)
+  ensures  same-as-from-bytes: r == msc.ComputeIdFromBytes(address)
+  ensures  valid-shard: r < msc.numberOfShards || r == 4294967295
+
+func (msc *multiShardCoordinator) SameShard(firstAddress []byte, secondAddress []byte) (r bool)
+  mode bv
+  requires inv(msc)
+  ensures  equal-ids-are-same-shard: msc.ComputeId(firstAddress) == msc.ComputeId(secondAddress) ==> r
+  ensures  same-shard-means-equal-ids-or-equal-bytes: r ==> msc.ComputeId(firstAddress) == msc.ComputeId(secondAddress) || bytesEq(firstAddress, secondAddress)
+  assigns  nothing
+@*/
